@@ -47,7 +47,9 @@ def pairJ (f : α → Json) (g : β → Json) (p : α × β) : Json := Json.arr 
 structure Reply where
   model : Json
   holds : Bool
+  info : Json := Json.null     -- optional diagnostics (e.g. which glyphs fail), used to classify failures
 
-def Reply.toJson (r : Reply) : Json := Json.mkObj [("model", r.model), ("holds", Json.bool r.holds)]
+def Reply.toJson (r : Reply) : Json :=
+  Json.mkObj [("model", r.model), ("holds", Json.bool r.holds), ("info", r.info)]
 
 end Ufo2ft.Drv
